@@ -183,14 +183,17 @@ def fire_jobs(scheds, epoch, days):
     date = {d['i']: d['ymd'] for d in days}
     jobs = []
     for s in scheds:
-        evs = []
-        for e in sorted(s['cfg']['events'], key=lambda e: (e['k'], e['n'], e['t'])):
-            e = dict(e)
-            if e['k'] == 'day':
-                e['date'] = date[e['n']]
-            evs.append(e)
-        cfg = {'kind': s['cfg']['kind'], 'start': s['cfg']['start'], 'events': evs}
-        events = [{'ev': h['ev'], 'dt': h['dt'], 't': h['t']} for h in s['h']]
+        nodes = {}
+        for tag, nd in s['cfg']['nodes'].items():
+            evs = []
+            for e in sorted(nd['events'], key=lambda e: (e['k'], e['n'], e['t'])):
+                e = dict(e)
+                if e['k'] == 'day':
+                    e['date'] = date[e['n']]
+                evs.append(e)
+            nodes[tag] = {'kind': nd['kind'], 'events': evs}
+        cfg = {'start': s['cfg']['start'], 'nodes': nodes}
+        events = [{'ev': h['ev'], 'dt': h['dt'], 't': h['t'], 'n': h['n']} for h in s['h']]
         jobs.append({'id': len(jobs), 'mode': 'fire', 'epoch': epoch, 'horizon': len(days) * 86400, 'cfg': cfg, 'events': events, 'drain': True})
     return jobs
 
@@ -212,40 +215,42 @@ def collect_b(chk, pid, jobs, files):
     byid = {j['id']: j for j in jobs}
     need = {r[1] for r in rows['CLAUSE']} | {r[1] for r in rows['DRIFT'][:5]}
     traces = {}
-    fires = completes = refires = nontrivial = 0
+    fires = completes = refires = nontrivial = two = 0
     for fn in files:
         with open(fn) as f:
             for ln in f:
                 t = json.loads(ln)
                 nf = nc = 0
                 for p, s in zip(t['steps'], t['steps'][1:]):
-                    if set(s['st']['todo']) - set(p['st']['todo']):
-                        nf += 1
+                    for tag in s['st']['todo']:
+                        if set(s['st']['todo'][tag]) - set(p['st']['todo'][tag]):
+                            nf += 1
                     if s['ev'] == 'Complete':
                         nc += 1
                 fires += nf
                 completes += nc
-                refires += 1 if nf > 1 else 0
+                refires += 1 if nf > len(t['cfg']['nodes']) else 0
                 nontrivial += 1 if nf and nc else 0
+                two += 1 if len(t['cfg']['nodes']) > 1 else 0
                 if t['tid'] in need:
                     traces[t['tid']] = t
     for r in rows['DRIFT']:
         chk.drift += 1
         if len(chk.drift_samples) < 5:
             chk.drift_samples.append({'trace': r[1], 'line': r[2], 'ev': r[3], 'cfg': byid[r[1]]['cfg']})
-    for _tag, tid, line, ev, bad in rows['CLAUSE']:
+    for _tag, tid, line, ev, bad, node in rows['CLAUSE']:
         t = traces[tid]
         st = t['steps'][line - 1]['st']
-        idle = not st['nque'] and not st['exec']
+        idle = not st['nque'][node] and not st['exec'][node]
         for clause in sorted(bad['set']):
             if not clause.startswith(pid + '.'):
                 continue
             if clause in ('C20.Armed', 'C20.Recurs') and idle:
-                sig = f'idle-status-{st["status"]}:{shape(t["steps"], line)}'
+                sig = f'idle-status-{st["status"][node]}:{shape(t["steps"], line)}'
             else:
                 sig = f'{ev}:{shape(t["steps"], line)}'
-            chk.add_violation(clause, sig, {'cfg': t['cfg'], 'line': line, 'event': ev, 'state': st}, {'mode': 'fire', 'job': byid[tid], 'line': line})
-    return fires, completes, refires, nontrivial
+            chk.add_violation(clause, sig, {'cfg': t['cfg'], 'node': node, 'line': line, 'event': ev, 'state': st}, {'mode': 'fire', 'job': byid[tid], 'line': line, 'node': node})
+    return fires, completes, refires, nontrivial, two
 
 
 def part_b(chk, pid, thorough, rnd, epoch, days):
@@ -256,21 +261,33 @@ def part_b(chk, pid, thorough, rnd, epoch, days):
         chk.extra['model_reproduces_fires_once'] = not known.ok
         chk.states -= known.distinct
         chk.transitions -= known.generated
-    return replay_b(chk, pid, rnd, epoch, days, None if thorough else 1000)
+    return replay_b(chk, pid, rnd, epoch, days, None if thorough else 1000, 3 if thorough else 2)
 
 
-def replay_b(chk, pid, rnd, epoch, days, nsample):
-    scheds = gen_b(chk, 3)
+def replay_b(chk, pid, rnd, epoch, days, nsample, maxenv=2):
+    scheds = gen_b(chk, maxenv)
     total = len(scheds)
     if nsample is not None:
-        rnd.shuffle(scheds)
-        scheds = scheds[:nsample]
+        # the start of the pipeline of EVERY configuration, plus a seeded sample of the longer schedules
+        first = [s for s in scheds if len(s['h']) == 1]
+        rest = [s for s in scheds if len(s['h']) > 1]
+        rnd.shuffle(rest)
+        scheds = first + rest[:nsample]
     jobs = fire_jobs(scheds, epoch, days)
     files = chk.run_harness('moment_h', jobs)
     chk.traces += len(jobs)
-    fires, completes, refires, nontrivial = collect_b(chk, pid, jobs, files)
-    if fires == 0 or completes == 0:
-        raise core.Machinery(f'vacuous firing replay: fires={fires} completions={completes}')
+    fires, completes, refires, nontrivial, two = collect_b(chk, pid, jobs, files)
+    if fires == 0 or completes == 0 or two == 0:
+        raise core.Machinery(f'vacuous firing replay: fires={fires} completions={completes} two-node schedules={two}')
+    shared = sum(
+        1
+        for j in jobs
+        if len({t.split('.')[1] for t in j['cfg']['nodes']}) < len(j['cfg']['nodes'])
+        and all(any(e['k'] == 'boot' for e in nd['events']) for nd in j['cfg']['nodes'].values())
+    )
+    if shared == 0:
+        raise core.Machinery('vacuous firing replay: no schedule with two boot events of algorithms that share their short name')
+    chk.counters.update(schedules_with_two_nodes=two, schedules_two_boot_events_same_short_name=shared)
     chk.counters.update(
         firing_transitions_of_gen_instance=total,
         firing_schedules_replayed=len(jobs),
@@ -288,6 +305,7 @@ MUTANTS = [  # (in-memory mutant of the real code, part, clause that must be rep
     ('dow_next_week', 'a', 'C20.NotFurther'),
     ('leap_day_raises', 'a', 'C20.Computable'),
     ('first_target_only', 'b', 'C20.FireTargets'),
+    ('boot_by_short_name', 'b', 'C20.BootFires'),
     ('timer_late', 'b', 'C20.Armed'),
 ]
 
@@ -346,24 +364,27 @@ def selftest(pid, seed):
     collect_a(chk, pid, jobs, corrupt(files, os.path.join(chk.work, 'corruptA.ndjson'), shift))
     results.append(('corrupt delay +60 s', 'C20.Lands', sum(1 for v in chk.violations if v['clause'] == 'C20.Lands')))
     scheds = gen_b(chk, 2)
-    jobs = fire_jobs(scheds[:300], domain[0], days)
+    rnd.shuffle(scheds)
+    jobs = fire_jobs(scheds[:400], domain[0], days)
     files = chk.run_harness('moment_h', jobs)
 
     def drop_timer(t):
         for st in t['steps'][1:]:
-            if st['st']['status'] == 'delayed' and st['st']['timers']:
+            if 'delayed' in st['st']['status'].values() and st['st']['timers']:
                 st['st']['timers'] = []
                 return True
         return False
 
     def second_boot_fire(t):
-        kinds = {e['k'] for e in t['cfg']['events']}
-        if kinds != {'boot'}:
+        if len(t['cfg']['nodes']) != 1:
+            return False
+        (tag, nd), = t['cfg']['nodes'].items()
+        if {e['k'] for e in nd['events']} != {'boot'}:
             return False
         for p, st in zip(t['steps'][1:], t['steps'][2:]):
-            if st['ev'] == 'Advance' and not p['st']['nque'] and not p['st']['todo']:
-                st['st']['nque'] = 1
-                st['st']['todo'] = ['__all__'] if t['cfg']['kind'] == 'analysis' else list(st['st']['targets'])
+            if st['ev'] == 'Advance' and not p['st']['nque'][tag] and not p['st']['todo'][tag]:
+                st['st']['nque'][tag] = 1
+                st['st']['todo'][tag] = ['__all__'] if nd['kind'] == 'analysis' else list(st['st']['targets'])
                 return True
         return False
 
@@ -410,14 +431,16 @@ def run(pid, tier, seed, replay=None):
         'calendar 2023-01-01..2025-12-31 for clock instants (designated moments up to 2026-12-31), 4 times of day + seeded random seconds; '
         '7 weekdays, days of month 1..31, 4 dates, 3 event times; wall clock injected (module attribute datetime of dawgie.pl.schedule)',
         'day-of-month matches literally: a month without that day has no occurrence; no lower bound on the delay (the occurrence just missed may be designated)',
-        'firing: one periodic node (task or analysis), 8 event sets, 5 start instants, <= 3-4 environment steps, then drain + one week + one month; '
+        'firing: one periodic node (task or analysis; 8 event sets, 5 start instants) or two nodes in different packages without data dependency, with the same '
+        'short algorithm name (t0.a, t1.a) or not (t0.a, t1.b) (3 kind pairs, 6 event-set pairs, 2 starts): 152 configurations; <= 2 (quick) / 3 (thorough) environment steps '
+        '(5 in the thorough MC run), then drain + one week + one month; '
         'reactor callbacks atomic; workers/database are environment stubs; executing = task messages decoded from the worker transports',
         'a node that is queued or executing when a moment passes is exempt from firing for that moment',
     ]
     return chk.finish(
         '(a) every specification of the domain x clock instants (all 4384 in thorough; first and last two days of every month + 24 seeded days in quick) + seeded random instants: '
         'the real _delay under the injected clock, each record judged by TLC; non-trivial = records whose delay is not 0. '
-        '(b) every transition of the bounded firing model (sampled in quick) as the input schedule reaching it, executed on the real schedule/farm code with a drain; '
+        '(b) every transition of the bounded firing model (quick: the pipeline start of every configuration + 1000 seeded longer schedules) as the input schedule reaching it, executed on the real schedule/farm code with a drain; '
         'non-trivial = schedules with at least one firing and one completion.'
     )
 
